@@ -803,49 +803,7 @@ func runC07(c *Ctx) {
 		}
 	}
 	c.immutableRule("C07.swap")
-	// the overwrite is ONE Store: nothing reachable from RegisterPipeline deletes from the graph
-	if fn := c.Fn("C07.swap", PkgRoot, "Broker", "RegisterPipeline"); fn != nil {
-		var chain []string
-		var find func(f *ssa.Function, seen map[*ssa.Function]bool) bool
-		find = func(f *ssa.Function, seen map[*ssa.Function]bool) bool {
-			if seen[f] {
-				return false
-			}
-			seen[f] = true
-			hit := false
-			eachInstr(f, func(in ssa.Instruction) {
-				if hit {
-					return
-				}
-				ci, ok := in.(ssa.CallInstruction)
-				if !ok {
-					return
-				}
-				sc := ci.Common().StaticCallee()
-				if sc == nil {
-					return
-				}
-				if sc.String() == "(*"+PkgRoot+".graphMap).Delete" {
-					chain = append(chain, p.ShortFn(f)+" calls graphMap.Delete at "+p.InstrPos(in))
-					hit = true
-					return
-				}
-				if p.InRepo(sc) && sc.Blocks != nil && find(sc, seen) {
-					chain = append(chain, p.ShortFn(f)+" calls "+p.ShortFn(sc)+" at "+p.InstrPos(in))
-					hit = true
-				}
-			})
-			for _, a := range f.AnonFuncs {
-				if !hit && find(a, seen) {
-					hit = true
-				}
-			}
-			return hit
-		}
-		del := find(fn, map[*ssa.Function]bool{})
-		r.Check(!del, "C07.swap", "RegisterPipeline:single-store", p.Pos(fn.Pos()), "registration never deletes from the graph: an overwrite is a single Store (a concurrent Send sees the old or the new version, never neither)",
-			"RegisterPipeline can delete a pipeline from the graph before storing its replacement: a concurrent Send (which ranges the sync.Map without the broker lock) is processed by neither version, and a failing overwrite loses the original: "+strings.Join(chain, " <- "))
-	}
+	c.ruleSingleStore("C07.swap")
 
 	// --- C07.reset: no policy-typed field outside the map entries
 	for _, owner := range []string{"eventlogger.Broker", "eventlogger.graph", "eventlogger.graphMap"} {
@@ -883,4 +841,55 @@ func (c *Ctx) immutableRule(rule string) {
 			r.Bad(rule, construct, c.P.InstrPos(a.Instr), "field of a possibly published pipeline structure is written in place; Send traverses these lists without any lock")
 		}
 	}
+}
+
+// ruleSingleStore: the overwrite of a pipeline is ONE sync.Map Store: nothing reachable from
+// RegisterPipeline deletes from the graph (a concurrent Send, which ranges the sync.Map
+// without the broker lock, sees the old or the new version, never neither).
+func (c *Ctx) ruleSingleStore(rule string) {
+	p, r := c.P, c.R
+	fn := c.Fn(rule, PkgRoot, "Broker", "RegisterPipeline")
+	if fn == nil {
+		return
+	}
+	var chain []string
+	var find func(f *ssa.Function, seen map[*ssa.Function]bool) bool
+	find = func(f *ssa.Function, seen map[*ssa.Function]bool) bool {
+		if seen[f] {
+			return false
+		}
+		seen[f] = true
+		hit := false
+		eachInstr(f, func(in ssa.Instruction) {
+			if hit {
+				return
+			}
+			ci, ok := in.(ssa.CallInstruction)
+			if !ok {
+				return
+			}
+			sc := ci.Common().StaticCallee()
+			if sc == nil {
+				return
+			}
+			if sc.String() == "(*"+PkgRoot+".graphMap).Delete" {
+				chain = append(chain, p.ShortFn(f)+" calls graphMap.Delete at "+p.InstrPos(in))
+				hit = true
+				return
+			}
+			if p.InRepo(sc) && sc.Blocks != nil && find(sc, seen) {
+				chain = append(chain, p.ShortFn(f)+" calls "+p.ShortFn(sc)+" at "+p.InstrPos(in))
+				hit = true
+			}
+		})
+		for _, a := range f.AnonFuncs {
+			if !hit && find(a, seen) {
+				hit = true
+			}
+		}
+		return hit
+	}
+	del := find(fn, map[*ssa.Function]bool{})
+	r.Check(!del, rule, "RegisterPipeline:single-store", p.Pos(fn.Pos()), "registration never deletes from the graph: an overwrite is a single Store (a concurrent Send sees the old or the new version, never neither)",
+		"RegisterPipeline can delete a pipeline from the graph before storing its replacement: a concurrent Send (which ranges the sync.Map without the broker lock) is processed by neither version, and a failing overwrite loses the original: "+strings.Join(chain, " <- "))
 }
